@@ -388,6 +388,13 @@ def chk_eq(K, clause, ne=False):
                         continue
                     if js(a) != js(b3) and ((not (a != b3)) if ne else (a == b3)):
                         return f"{K}[{ck}]: structurally different aggregators (alt={alt}) compare equal after {n} data"
+        if clause == "sound":
+            vals = [0.5, 2.0, INF, -INF, NAN, -3.0]
+            for s1, s2 in itertools.product(itertools.product(vals, repeat=2), repeat=2):
+                a = fill_all(make(K, ck), [datum(x, c="a") for x in s1])
+                b = fill_all(make(K, ck), [datum(x, c="a") for x in s2])
+                if js(a) != js(b) and ((not (a != b)) if ne else (a == b)):
+                    return f"{K}[{ck}]: different content compares equal: filled {s1} vs {s2}: {js(a)} vs {js(b)}"
         if clause in ("no-raise", "different-type-unequal"):
             a = make(K, ck)
             for other in (None, 3.0, "x", hg.Count() if K != "Count" else hg.Sum(qx)):
@@ -413,12 +420,12 @@ def chk_rollback(K):
             if d.get("bad"):
                 if mode == "raise":
                     raise Boom("quantity failed")
-                return [1, 2]
+                return [1, 2] if mode == "type" else 1j
             return d["y"]
 
         return q
 
-    for mode in ("raise", "type"):
+    for mode in ("raise", "type", "complex"):
         for ck in ("Sum", "Average", "Deviate", "Minimize", "Maximize", "Bin", "Sparse", "Cat"):
             q = bad_q(mode)
             child = {
@@ -606,3 +613,121 @@ def replay(function, clause):
         return 1
     print(f"no failing input found natively for {function} / {clause} within the stated bound")
     return 0
+
+
+# --------------------------------------------------------------------------- C17: user-function wrappers
+
+
+def chk_c17(what):
+    import numpy as np
+    from histogrammar.util import CachedFcn, UserFcn, cached, named, serializable
+
+    def g(x):
+        return x["x"] * 2 if isinstance(x, dict) else x * 2
+
+    if what in ("orders", "wrapper-is-CachedFcn(expr,name)", "orders-yield-equal-wrappers", "no-raise-in-any-order"):
+        for f in (lambda x: x, g, "x + 1"):
+            res = []
+            for order in itertools.permutations(["named", "cached", "serializable"]):
+                v = f
+                try:
+                    for step in order:
+                        v = named("n", v) if step == "named" else cached(v) if step == "cached" else serializable(v)
+                except Exception as e:
+                    return f"wrappers applied in order {order} to {f!r} raised {e!r}"
+                if not (isinstance(v, CachedFcn) and v.name == "n" and v.expr is f):
+                    return f"order {order} on {f!r} gives {v!r}"
+                res.append(v)
+            for a, b in itertools.combinations(res, 2):
+                if not (a == b and hash(a) == hash(b)):
+                    return f"two application orders on {f!r} give unequal wrappers"
+    if what in ("second-name", "second-name-ValueError"):
+        for f in (lambda x: x, g, "x + 1"):
+            for mk in (lambda f: named("a", f), lambda f: cached(named("a", f)), lambda f: serializable(named("a", f))):
+                try:
+                    named("b", mk(f))
+                except ValueError:
+                    continue
+                return f"a second name on {f!r} did not raise ValueError"
+    if what in ("cached-call", "returns-function-value", "cache-invariant", "only-if-function-raises", "frame"):
+        calls = []
+
+        def f(x, k=0):
+            calls.append(1)
+            if isinstance(x, np.ndarray):
+                return x * 3 + k
+            return (x, k)
+
+        seqs = [[1, 1, 2, 1, 2, 2], [np.array([1.0, 2.0]), np.array([1.0, 2.0]), np.array([1.0, 3.0]), np.array([1.0, 2.0, 3.0])], ["a", "a", "b"], [1, 1.0, True, 2]]
+        for wrap in (cached, lambda h: named("n", cached(h)), lambda h: cached(serializable(h)), serializable):
+            for seq in seqs:
+                w = wrap(f)
+                for x in seq:
+                    for kw in ({}, {"k": 1}):
+                        try:
+                            got = w(x, **kw)
+                        except Exception as e:
+                            return f"wrapped call raised {e!r} at argument {x!r} kw={kw} in sequence {seq!r}"
+                        want = f(x, **kw)
+                        same = np.array_equal(got, want) if isinstance(want, np.ndarray) else got == want
+                        if not same:
+                            return f"wrapped call returned {got!r} instead of {want!r} at {x!r} kw={kw} in sequence {seq!r}"
+    if what in ("string-expr",):
+        import math
+
+        exprs = [
+            ("x + y", lambda d: d["x"] + d["y"]),
+            ("x * y - 1", lambda d: d["x"] * d["y"] - 1),
+            ("x / (abs(y) + 1)", lambda d: d["x"] / (abs(d["y"]) + 1)),
+            ("x < y", lambda d: d["x"] < d["y"]),
+            ("x >= y and not (x > 2)", lambda d: d["x"] >= d["y"] and not (d["x"] > 2)),
+            ("sqrt(abs(x)) + y", lambda d: math.sqrt(abs(d["x"])) + d["y"]),
+            ("x > 0 or y > 0", lambda d: d["x"] > 0 or d["y"] > 0),
+        ]
+
+        class Rec:
+            def __init__(self, x, y):
+                self.x, self.y = x, y
+
+        vals = [0.0, 1.0, -1.5, 2.5, 3.0]
+        for s, fn in exprs:
+            for x, y in itertools.product(vals, vals):
+                d = {"x": x, "y": y}
+                for rec in (d, Rec(x, y)):
+                    got = serializable(s)(rec)
+                    if got != fn(d):
+                        return f"string expression {s!r} on {type(rec).__name__} record {d} gives {got!r}, the function gives {fn(d)!r}"
+                # aggregators filled identically
+                for mk in (lambda q: hg.Sum(q), lambda q: hg.Bin(4, -2.0, 3.0, q), lambda q: hg.Select(q, hg.Count())):
+                    a, b = mk(s), mk(fn)
+                    for x2, y2 in ((x, y), (y, x)):
+                        a.fill({"x": x2, "y": y2})
+                        b.fill({"x": x2, "y": y2})
+                    ja, jb = a.toJson()["data"], b.toJson()["data"]
+                    ja.pop("name", None), jb.pop("name", None)
+                    if not approx_eq(ja, jb):
+                        return f"aggregator with string quantity {s!r} differs from the one with the equivalent function after filling x={x}, y={y}"
+        # bare scalars: single-variable expressions
+        for s, fn in (("x * 2", lambda v: v * 2), ("x + 1 > 2", lambda v: v + 1 > 2), ("sqrt(abs(x))", lambda v: math.sqrt(abs(v)))):
+            w = serializable(s)
+            for v in vals:
+                if w(v) != fn(v):
+                    return f"string expression {s!r} on bare scalar {v} gives {w(v)!r}"
+    return None
+
+
+_run_clause_prims = run_clause
+
+
+def run_clause(K, method, clause):  # noqa: F811  (extends the dispatcher above)
+    kind, _, what = clause.partition(":")
+    if K in ("util", "UserFcn", "CachedFcn") or method in ("named", "cached", "serializable"):
+        table = {
+            "wrapper-is-CachedFcn(expr,name)": "orders",
+            "orders-yield-equal-wrappers": "orders",
+            "no-raise-in-any-order": "orders",
+            "second-name-ValueError": "second-name",
+            "reflexive": "orders",
+        }
+        return chk_c17(table.get(what, "cached-call"))
+    return _run_clause_prims(K, method, clause)
